@@ -114,32 +114,35 @@ def monitor(scn, sobj, rep, sf, ck):
         kind = op[0]
         if kind == "TA":
             k, seq = op[1], op[2]
+            at_r = ents.get(r) if r is not None and r >= 0 else None
             if k in model:
                 seen.add("refresh")
                 m = model[k]
-                if r != m["slot"]:
-                    bad("add-known-key-not-same-slot", "returned slot %s, session lives in slot %d" % (r, m["slot"]), i)
+                if at_r is None or (at_r[0], at_r[1]) != k:
+                    bad("add-known-key-does-not-return-its-session", "returned slot %s which holds %s" %
+                        (r, (at_r[0].hex(), at_r[1]) if at_r else None), i)
                 m["seq"], m["last"], m["last_ms"] = seq, now_s, now_ms
             elif len(model) < 16:
                 seen.add("insert")
                 if r is None or r < 0:
                     bad("add-fails-with-room", "returned %s with %d live sessions" % (r, len(model)), i)
                 else:
-                    if any(m["slot"] == r for m in model.values()):
-                        bad("add-overwrites-live-slot", "new session placed in live slot %d" % r, i)
+                    if at_r is None or (at_r[0], at_r[1]) != k:
+                        bad("add-returns-wrong-entry", "returned slot %s which holds %s" % (r, (at_r[0].hex(), at_r[1]) if at_r else None), i)
                     model[k] = dict(seq=seq, complete=0, last=now_s, last_ms=now_ms, slot=r)
             else:
                 seen.add("full-reject")
                 if r != -1:
                     bad("add-to-full-table-succeeds", "returned slot %s with 16 live sessions" % r, i)
-                if ents != prev_ents:
+                if sorted(ents.values()) != sorted(prev_ents.values()):
                     bad("add-to-full-table-disturbs-entries", "entries changed: %s" % _diff(prev_ents, ents), i)
         elif kind == "TF":
             k = op[1]
+            at_r = ents.get(r) if r is not None and r >= 0 else None
             if (r is not None and r >= 0) != (k in model):
                 bad("find-disagrees-with-model", "find returned %s, key %s in model" % (r, "is" if k in model else "is not"), i)
-            elif k in model and r != model[k]["slot"]:
-                bad("find-wrong-slot", "find returned %s, session lives in %d" % (r, model[k]["slot"]), i)
+            elif k in model and (at_r is None or (at_r[0], at_r[1]) != k):
+                bad("find-returns-wrong-entry", "find returned slot %s which holds %s" % (r, (at_r[0].hex(), at_r[1]) if at_r else None), i)
             seen.add("find-hit" if k in model else "find-miss")
         elif kind == "TR":
             if op[1] in model:
@@ -193,9 +196,7 @@ def monitor(scn, sobj, rep, sf, ck):
         else:
             for s, e in ents.items():
                 m = model[(e[0], e[1])]
-                if m["slot"] != s:
-                    bad("session-moved-slot", "session now in slot %d, was %d" % (s, m["slot"]), i)
-                    m["slot"] = s
+                m["slot"] = s
                 if e[2] != m["seq"]:
                     bad("seq-not-refreshed", "seq=%d expected %d" % (e[2], m["seq"]), i)
                     m["seq"] = e[2]
